@@ -55,6 +55,17 @@ class Interp:
         self.xp, self.is_cubed, self.spec = xp, is_cubed, spec
 
     def make_input(self, inp):
+        if inp.get("src") == "random":
+            import random as pyrandom
+            import cubed
+            import cubed.random
+            pyrandom.seed(inp.get("seed", 0))
+            spec = self.spec
+            if spec is None:
+                import tempfile
+                spec = cubed.Spec(work_dir=tempfile.mkdtemp(prefix="np-oracle-"), allowed_mem="500MB", reserved_mem=0)
+            r = cubed.random.random(tuple(inp["shape"]), chunks=tuple(inp["chunks"]), spec=spec)
+            return r if self.is_cubed else r.compute()
         data = input_data(inp)
         if not self.is_cubed:
             return data
@@ -547,3 +558,53 @@ def same(a, b):
     if a.dtype.kind in "fc" or b.dtype.kind in "fc":
         return bool(np.allclose(a, b, rtol=1e-9, atol=1e-12, equal_nan=True))
     return bool(np.array_equal(a, b))
+
+
+# ------------------------------------------------------------------------------------------- structured DAG shapes
+
+def structured(rng):
+    """Hand-shaped DAG families the random generator rarely produces: repeated arguments f(x, x), diamonds, operands at
+    mixed depths, shared intermediates requested together with their consumers, reductions feeding element-wise ops."""
+    r, c = rng.choice([(4, 6), (6, 4), (5, 5), (8, 3), (6, 6)])
+    ch = [rng.randint(1, r), rng.randint(1, c)]
+    inp = dict(shape=[r, c], chunks=ch, dtype=rng.choice(["int64", "float64"]), seed=rng.randint(0, 9), pattern="lin", src="asarray")
+    inp2 = dict(shape=[r, c], chunks=[rng.randint(1, r), rng.randint(1, c)], dtype=inp["dtype"], seed=rng.randint(0, 9),
+                pattern="iota", src="asarray")
+    kind = rng.choice(["rep-deep", "diamond", "mixed", "shared", "rep3", "red-elem", "chain-rechunk", "two-branches"])
+    if kind == "rep-deep":      # x*x - sum(x, axis, keepdims): repeated input + a deeper input
+        ax = rng.choice([0, 1])
+        steps = [dict(op="multiply", args=[0, 0]), dict(op="sum", args=[0], kw=dict(axis=ax, keepdims=True)),
+                 dict(op="subtract", args=[1, 2])]
+        inputs, outs = [inp], [3]
+    elif kind == "diamond":
+        steps = [dict(op="negative", args=[0]), dict(op="scalar_add", args=[0], kw=dict(k=1)), dict(op="lincomb", args=[1, 2])]
+        inputs, outs = [inp], [3]
+    elif kind == "mixed":       # operands at different depths
+        steps = [dict(op="add", args=[0, 0]), dict(op="scalar_mul", args=[0], kw=dict(k=2)),
+                 dict(op="rechunk", args=[2], kw=dict(chunks=[r, 1])), dict(op="negative", args=[3]),
+                 dict(op="lincomb", args=[1, 4])]
+        inputs, outs = [inp], [5]
+    elif kind == "shared":      # intermediate requested together with its consumers
+        steps = [dict(op="add", args=[0, 1]), dict(op="negative", args=[2]), dict(op="square", args=[2]),
+                 dict(op="sum", args=[3], kw=dict(axis=0))]
+        inputs, outs = [inp, inp2], rng.choice([[2, 4, 5], [3, 5], [2, 5], [4, 5]])
+    elif kind == "rep3":        # f(x, x, y) with y a deep chain
+        steps = [dict(op="negative", args=[1]), dict(op="rechunk", args=[2], kw=dict(chunks=ch)),
+                 dict(op="multiply", args=[0, 0]), dict(op="lincomb", args=[4, 3])]
+        inputs, outs = [inp, inp2], [5]
+    elif kind == "red-elem":
+        steps = [dict(op="max", args=[0], kw=dict(axis=1, keepdims=True)), dict(op="subtract", args=[0, 1]),
+                 dict(op="cumulative_sum", args=[2], kw=dict(axis=0))]
+        inputs, outs = [inp], [3]
+    elif kind == "chain-rechunk":
+        steps = [dict(op="scalar_add", args=[0], kw=dict(k=3)), dict(op="rechunk", args=[1], kw=dict(chunks=[1, c])),
+                 dict(op="rechunk", args=[2], kw=dict(chunks=[r, 1])), dict(op="sum", args=[3], kw=dict(axis=1))]
+        inputs, outs = [inp], [4]
+    else:                       # two independent branches of unequal length, computed together
+        steps = [dict(op="negative", args=[0]), dict(op="rechunk", args=[1], kw=dict(chunks=[rng.randint(1, r), rng.randint(1, c)])),
+                 dict(op="sum", args=[3], kw=dict(axis=0)), dict(op="scalar_mul", args=[1], kw=dict(k=2))]
+        inputs, outs = [inp, inp2], [4, 5]
+    prog = dict(inputs=inputs, steps=steps, outs=outs, family=kind)
+    with np.errstate(all="ignore"):
+        nv = Interp(np, False).run(prog)
+    return prog, nv
